@@ -41,9 +41,10 @@ def setup(tier):
 
 
 def budget(tier):
-    return {"examples": 3000, "shards": 1} if tier == "quick" else {"examples": 20000, "shards": 16}
+    return {"examples": 2000, "shards": 1} if tier == "quick" else {"examples": 20000, "shards": 16}
 
 
+SHIPPED_PREFIXES = [(10, e) for e in (30, 27, 24, 21, 18, 15, 12, 9, 6, 3, 2, 1, -1, -2, -3, -6, -9, -12, -15, -18, -21, -24, -27, -30)] + [(2, e) for e in (10, 20, 30, 40, 50, 60, 70, 80)]
 CONFIG_MODS = ["si", "us", "avoirdupois", "troy", "energy", "astronomical", "natural", "metric", "iec", "iso", "fff", "computing", "geometry"]
 
 
@@ -94,11 +95,25 @@ def run_config(case, out):
             c.all_units = dict(c.snap.units)
             c.prefixes = sorted(x_ for x_ in c.snap.prefixes if x_)
         scratch = core.Outcome() if k < len(mods) else out
-        for p in [""] + c.prefixes:
+        # prefixes that some shipped module registers may exist anonymously before that module is
+        # imported (results of arithmetic, Prefix(2, 10)); they are rendered here as well, so that
+        # the same unit is rendered again after the prefix has been named
+        prefix_objs = [("", c.m.IdentityPrefix)] + [(pn, c.snap.prefixes[pn]) for pn in c.prefixes]
+        known = {(p_.base, p_.exponent) for _, p_ in prefix_objs}
+        for base, exp in SHIPPED_PREFIXES:
+            if (base, exp) not in known:
+                prefix_objs.append((f"anon:{base}^{exp}", c.m.Prefix(base, exp)))
+        for pn, pobj in prefix_objs:
             for u in sorted(c.all_units):
                 for e in (1, 2, -1):
-                    x = (c.snap.prefixes[p] * c.all_units[u]) ** e
-                    _check_roundtrip(c, scratch, x, [[p, u, e]], [3])
+                    x = (pobj * c.all_units[u]) ** e
+                    if pn.startswith("anon:"):
+                        try:
+                            str(x), str(3 * x)  # symbol-less today (K-SYMBOLLESS): only rendered
+                        except Exception as ex:  # noqa
+                            scratch.fail(f"C13:str-raises:{type(ex).__name__}@{core.innermost_frame(ex)}", f"str() of a unit with the anonymous prefix {base}^{exp} raised {ex!r}")
+                        continue
+                    _check_roundtrip(c, scratch, x, [[pn, u, e]], [3])
                     n += 1
             if len(scratch.failures) > 200:
                 break
